@@ -42,7 +42,8 @@ func (u *Unbind) GetCommand() sms.ICommander {
 
 func (u *Unbind) GenEmptyResponse() sms.PDU {
 	return &UnbindResp{
-		Header: sgip.NewHeader(0, sgip.SGIP_UNBIND_REP, u.Sequence[0], u.GetSequenceID()),
+		// SGIP 1.2 §3.4: a response repeats the whole sequence number of its command
+		Header: sgip.Header{CommandID: sgip.SGIP_UNBIND_REP, Sequence: u.Header.Sequence},
 	}
 }
 
